@@ -29,7 +29,7 @@ Lemma claim_uptimes_spec : forall d id age isc ups outs uts ups' col forf byup,
   length ups' = length ups /\ length byup = length ups /\ length outs = length ups /\
   (forall u, same_other (nth u ups acc_empty) (nth u ups' acc_empty) id /\ ac_value (nth u ups' acc_empty) = ac_value (nth u ups acc_empty) /\
              ac_total (nth u ups' acc_empty) = ac_total (nth u ups acc_empty) /\
-             (forall r, acc_get (nth u ups acc_empty) id = Some r -> exists r', acc_get (nth u ups' acc_empty) id = Some r' /\ ar_shares r' = ar_shares r) /\
+             (forall r, acc_get (nth u ups acc_empty) id = Some r -> exists r', acc_get (nth u ups' acc_empty) id = Some r' /\ ar_shares r' = ar_shares r /\ ar_unclaimed r' = dc0) /\
              (acc_get (nth u ups acc_empty) id = None -> acc_get (nth u ups' acc_empty) id = None)) /\
   exists T, 0 <= T /\
     2 * lsum2 (owedAO d id) ups' outs + 2 * (T * P18 * P18) <= 2 * lsum2 (owedAO d id) ups outs + Z.of_nat (length ups) * P18 /\
@@ -66,10 +66,10 @@ Proof.
       assert (PWH : forall u, same_other (nth u (a :: ups) acc_empty) (nth u (a' :: ar) acc_empty) id /\
                  ac_value (nth u (a' :: ar) acc_empty) = ac_value (nth u (a :: ups) acc_empty) /\
                  ac_total (nth u (a' :: ar) acc_empty) = ac_total (nth u (a :: ups) acc_empty) /\
-                 (forall r0, acc_get (nth u (a :: ups) acc_empty) id = Some r0 -> exists r', acc_get (nth u (a' :: ar) acc_empty) id = Some r' /\ ar_shares r' = ar_shares r0) /\
+                 (forall r0, acc_get (nth u (a :: ups) acc_empty) id = Some r0 -> exists r', acc_get (nth u (a' :: ar) acc_empty) id = Some r' /\ ar_shares r' = ar_shares r0 /\ ar_unclaimed r' = dc0) /\
                  (acc_get (nth u (a :: ups) acc_empty) id = None -> acc_get (nth u (a' :: ar) acc_empty) id = None)).
       { intro u. destruct u as [|u]; [|apply PW]. cbn [nth]. split; [exact SO|]. split; [exact VV|]. split; [exact TT|]. split.
-        - intros r0 R0. rewrite R in R0. inversion R0; subst r0. eexists. split; [exact RA|reflexivity].
+        - intros r0 R0. rewrite R in R0. inversion R0; subst r0. eexists. split; [exact RA|split; reflexivity].
         - intro X. congruence. }
       destruct (age <? ut) eqn:EAge; inversion H; subst ups' col forf byup; clear H.
       * split; [simpl; lia|]. split; [simpl; lia|]. split; [simpl; lia|]. split; [exact PWH|].
@@ -98,8 +98,9 @@ Lemma upd_uptime_accs_spec : forall d id liquidity delta ups ins outs ups',
   length ups' = length ups /\ length outs = length ups /\
   (forall u, same_other (nth u ups acc_empty) (nth u ups' acc_empty) id /\ ac_value (nth u ups' acc_empty) = ac_value (nth u ups acc_empty)) /\
   (forall u, (u < length ups)%nat ->
-     (forall r, acc_get (nth u ups acc_empty) id = Some r -> exists r', acc_get (nth u ups' acc_empty) id = Some r' /\ ar_shares r' = ar_shares r + delta) /\
-     (acc_get (nth u ups acc_empty) id = None -> exists r', acc_get (nth u ups' acc_empty) id = Some r' /\ ar_shares r' = liquidity /\ 0 < delta)) /\
+     (forall r, acc_get (nth u ups acc_empty) id = Some r -> exists r', acc_get (nth u ups' acc_empty) id = Some r' /\ ar_shares r' = ar_shares r + delta /\
+        (0 <= dsel d (ar_unclaimed r) -> 0 <= dsel d (ar_unclaimed r'))) /\
+     (acc_get (nth u ups acc_empty) id = None -> exists r', acc_get (nth u ups' acc_empty) id = Some r' /\ ar_shares r' = liquidity /\ 0 < delta /\ ar_unclaimed r' = dc0)) /\
   2 * lsum2 (owedAO d id) ups' outs <= 2 * lsum2 (owedAO d id) ups outs + Z.of_nat (length ups) * P18.
 Proof.
   intros d id liquidity delta. pose proof P18_pos as HP.
@@ -116,20 +117,25 @@ Proof.
     pose proof (HI O ltac:(simpl; lia)) as HI0. cbn [nth] in HI0.
     (* the head accumulator *)
     assert (HEAD : same_other a a' id /\ ac_value a' = ac_value a /\
-              (forall r, acc_get a id = Some r -> exists r', acc_get a' id = Some r' /\ ar_shares r' = ar_shares r + delta) /\
-              (acc_get a id = None -> exists r', acc_get a' id = Some r' /\ ar_shares r' = liquidity /\ 0 < delta) /\
+              (forall r, acc_get a id = Some r -> exists r', acc_get a' id = Some r' /\ ar_shares r' = ar_shares r + delta /\ (0 <= dsel d (ar_unclaimed r) -> 0 <= dsel d (ar_unclaimed r'))) /\
+              (acc_get a id = None -> exists r', acc_get a' id = Some r' /\ ar_shares r' = liquidity /\ 0 < delta /\ ar_unclaimed r' = dc0) /\
               2 * owedAO d id a' o <= 2 * owedAO d id a o + P18).
     { unfold acc_has in EA. destruct (acc_get a id) as [r|] eqn:R; cbn [negb] in EA.
       - destruct (to_init_plus_outside a id o) as [a1|] eqn:E1; [|discriminate EA]. cbv beta iota in EA.
         destruct (upd_existing _ _ _ _ _ _ _ _ E1 EA R) as [SO [VV [_ [un [RA HU]]]]].
-        split; [exact SO|]. split; [exact VV|]. split; [intros r0 X; inversion X; subst r0; eexists; split; [exact RA|reflexivity]|].
+        split; [exact SO|]. split; [exact VV|].
+        split; [intros r0 X; inversion X; subst r0; eexists; split; [exact RA|split; [reflexivity|]]|].
+        { cbn [ar_unclaimed]. intro U0. destruct (HU d) as [G0' UN']. cbv zeta in G0', UN'. rewrite UN'.
+          pose proof (d_mul_bounds _ _ G0' (NNa r R)) as MB. pose proof P18_pos.
+          assert (0 <= (dsel d (ac_value a) - dsel d o - dsel d (ar_snap r)) * ar_shares r) by (pose proof (NNa r R); nia).
+          set (m := d_mul _ _) in *. clearbody m. nia. }
         split; [intro X; discriminate X|].
         unfold owedAO. rewrite RA, R, VV. destruct (HU d) as [G0 UN]. cbv zeta in G0, UN.
         set (I := dsel d (ac_value a) - dsel d o) in *.
         apply (owedA_update d I r (ar_shares r + delta) _ G0 (NNa r R) eq_refl i un); [exact HI0|exact UN].
       - destruct (negb (0 <? delta)) eqn:ED; [discriminate EA|]. apply negb_false_iff, Z.ltb_lt in ED.
         destruct (new_position_rec _ _ _ _ _ EA) as [SO [VV [_ RA]]].
-        split; [exact SO|]. split; [exact VV|]. split; [intros r0 X; discriminate X|]. split; [intros _; eexists; split; [exact RA|split; [reflexivity|exact ED]]|].
+        split; [exact SO|]. split; [exact VV|]. split; [intros r0 X; discriminate X|]. split; [intros _; eexists; split; [exact RA|split; [reflexivity|split; [exact ED|reflexivity]]]|].
         unfold owedAO. rewrite RA, R, VV. unfold owedA. cbn [ar_shares ar_snap ar_unclaimed]. rewrite HI0, dsel_dc0. lia. }
     destruct HEAD as [SO [VV [RS [RN OW]]]].
     split; [simpl; lia|]. split; [simpl; lia|]. split.
